@@ -142,12 +142,16 @@ PROPS = {
     "C08": {
         "level": "proof",
         "lean_modules": ["CrabProofs.Props.C08", "CrabProofs.Props.C08Cong", "CrabProofs.Props.C08Fin",
-                         "CrabProofs.Props.C08Cst", "CrabProofs.Props.C08IC", "CrabProofs.Props.C08Itv2"],
+                         "CrabProofs.Props.C08Cst", "CrabProofs.Props.C08IC", "CrabProofs.Props.C08Itv2", "CrabProofs.Props.C08Dis"],
         "tables": [tables.gen_tables],
         "components": [
             {"harness": "h_iv", "quick": 240000, "thorough": 4000000, "shards": 16, "nontrivial": nontriv_iv},
             {"harness": "h_cong", "quick": 150000, "thorough": 3000000, "shards": 16, "nontrivial": nontriv_cg},
             {"harness": "h_fin", "quick": 100000, "thorough": 1000000, "shards": 8, "nontrivial": nontriv_fin},
+            # dis_interval<z_number> driven directly: normalised, related and raw vectors (unsorted, overlapping, adjacent,
+            # bottom / top intervals inside, +-oo ends) up to 49 intervals, the 50-disjunct merge, every operation
+            {"harness": "h_dis", "quick": 200000, "thorough": 3000000, "shards": 16, "corpus": "h_dis",
+             "nontrivial": lambda l: l.count("(l ") >= 2},
         ],
         "rule": "intervals: boundary-biased random operands (bottom, top, singletons, half lines, zero-crossing, 2^k±d, 40-digit) x every operation; congruences / interval-congruences built through the public API by expressions (moduli 0..12, 13..1000, 2^32, 2^63±1, 2^64, negative residues, bottom, top) x every operation; sign and boolean: the whole finite domain (tables regenerated from the tree on every run); constants: boundary-biased numbers; a case is non-trivial when no operand is bottom or top; distinct = distinct request lines",
         "assumptions": [
@@ -170,7 +174,8 @@ PROPS = {
     "C03": {
         "level": "proof",
         "lean_modules": ["CrabProofs.Props.C03", "CrabProofs.Props.C03Itv", "CrabProofs.Props.C03Cst", "CrabProofs.Props.C03Sgn",
-                         "CrabProofs.Props.C03CongDom", "CrabProofs.Props.C03Ric", "CrabProofs.Props.C03Rel", "CrabProofs.Props.C03Functors"],
+                         "CrabProofs.Props.C03CongDom", "CrabProofs.Props.C03Ric", "CrabProofs.Props.C03Rel", "CrabProofs.Props.C03Functors", "CrabProofs.Props.C03FlatBool",
+                         "CrabProofs.Props.C03FlatBoolCex"],
         "components": [idom_component("[C03]")] + xdom_components("[C03]") + dom_components("[C03]", 900, 12000) + dom2_components("[C03]", 400, 6000),
         "rule": DOM_RULE, "assumptions": DOM_ASSUME,
         "trusted_base": COMMON_TB + ["driver concrete semantics: lean/Driver/DomH.lean (definitions of the witness replay and of membership)"],
@@ -178,7 +183,7 @@ PROPS = {
     "C04": {
         "level": "proof",
         "lean_modules": ["CrabProofs.Props.C04", "CrabProofs.Props.C04Itv", "CrabProofs.Props.C04Cst", "CrabProofs.Props.C04Sgn",
-                         "CrabProofs.Props.C04CongDom", "CrabProofs.Props.C04Ric", "CrabProofs.Props.C04Rel", "CrabProofs.Props.C04Functors"],
+                         "CrabProofs.Props.C04CongDom", "CrabProofs.Props.C04Ric", "CrabProofs.Props.C04Rel", "CrabProofs.Props.C04Functors", "CrabProofs.Props.C04FlatBool"],
         "components": [idom_component("[C04]")] + xdom_components("[C04]") + dom_components("[C04]", 700, 10000) + dom2_components("[C04]", 300, 5000),
         "rule": DOM_RULE + "; C04 adds: all ordered pairs of the final pool for <=, x<=x, bot<=x, x<=top, is_bottom(bottom), is_top(top), is_top/is_bottom after set_to_*",
         "assumptions": DOM_ASSUME,
@@ -204,7 +209,7 @@ PROPS = {
     },
     "C05": {
         "level": "proof",
-        "lean_modules": ["CrabProofs.Props.C05", "CrabProofs.Props.C05Itv", "CrabProofs.Props.C05Chain", "CrabProofs.Props.C05Zones", "CrabProofs.Props.C05XDom", "CrabProofs.Props.C05Rel", "CrabProofs.Props.C05Oct"],
+        "lean_modules": ["CrabProofs.Props.C05", "CrabProofs.Props.C05Itv", "CrabProofs.Props.C05Chain", "CrabProofs.Props.C05Zones", "CrabProofs.Props.C05XDom", "CrabProofs.Props.C05Rel", "CrabProofs.Props.C05Oct", "CrabProofs.Props.C05Dis"],
         "components": [dict(FIX_COMPONENT, timeout=600)] + wchain_components() + zw_components() + ow_components(),
         "rule": "(1) same iterator harness as C06; every run is executed under a wall-clock watchdog; the model needs finite fuel on every generated CFG. (2) widening chains x_i = x_{i-1} widen y_i over 25 shipped domain instantiations and the wrapped_interval scalar (all widths): y_i independent values, loop-body images F(x_{i-1}) and F(x_{i-1}) | x0; plain widening, widening_thresholds with random threshold sets, delayed widening; adversarial sequences (ever-growing bounds, alternating variables, new relations, constants jumping over thresholds) and realistic loop bodies; every witness of both arguments must satisfy the result, the chain must reach a stationary suffix within 60-300 steps; narrowing of decreasing pairs must keep the second argument's states; non-trivial = at least two non-stationary steps. (3) zones widening chains given by in-language constraints (2-5 variables; two/three-counter families, one-constant-moves, translated loops, random and infeasible values; plain / widening_thresholds / probed / operator[]-on-stored modes) over split_dbm and sparse_dbm (5 instantiations) replayed by the PROVED model of C05Zones: bottom-ness, both inclusion flags and the closed result are compared entrywise per step. (4) the same for the split_oct widening (2 instantiations): stored graph, vertex map and unstable set compared entrywise with the proved model of operator|| / split_widen / split_widen_rels, both inclusion flags, tight closures, witness containment",
         "assumptions": ["the widening chain condition is proved for intervals, the interval domain, congruences, constants and signs; for the other shipped domains it is tested by the chain harness (no stationary suffix within N steps is reported, a run cannot prove non-termination)", "inter-procedural recursion loops are only exercised by the C09 harness under its watchdog"],
